@@ -153,6 +153,12 @@ def rule_mem_file_siblings(ctx):
                                       "%s reads %s only when the module is %s" % (fn, e["n"], "process memory" if WANT[e["n"]] else "a file image"),
                                       "%s uses a segment's %s whatever kind of memory the module is read from (read_segment uses p_vaddr for process memory): for a loaded "
                                       "module whose segment is not mapped at its file offset the bytes are read from the wrong place" % (fn, e["n"]))
+                            if e["n"] == "p_vaddr" and okc:
+                                # a non-PIE executable's (or a prelinked object's) p_vaddr is already an absolute address: it becomes
+                                # module-relative only through absolute(), like DT_STRTAB's value
+                                ab = [x for x, t in body.calls(lambda c: c.endswith("ProcessMemory::absolute")) if any(q[0] == "field" and q[2] == "p_vaddr" for q in walk(bo.call_args(x)[1]))]
+                                ctx.check(bool(ab), R, ("segment-location", fn, "p_vaddr-made-relative"), body.where(bi, si), "the segment's virtual address is made module-relative with absolute() before it is read",
+                                          "%s reads at a raw p_vaddr: for a non-PIE executable (absolute link address) the read goes to start + 0x400000 + x and the note is lost" % fn)
     ctx.ok(R, ("segment-location", "sites"), None, "uses of a segment's location outside read_segment: %d" % n_sites, nontrivial=False)
     b = ctx.body(R, MR + "::ModuleReader::section_offset")
     if b is not None:
